@@ -100,7 +100,11 @@ func showSym(v any, err error) string {
 // area struct
 // ---------------------------------------------------------------------------------------------------------------
 
-type structArea struct{ reused [2]*eval.Evaluator }
+// dump: the generator adds a `d` line (white-box stack dump) after every expression — area `state`.
+type structArea struct {
+	reused [2]*eval.Evaluator
+	dump   bool
+}
 
 func (a *structArea) Gen(r *hx.Rng, n int, _ string, emit func(string)) {
 	for i := 0; i < n; i++ {
@@ -133,6 +137,11 @@ func (a *structArea) Gen(r *hx.Rng, n int, _ string, emit func(string)) {
 			op = "f "
 		}
 		emit(op + hx.Hex([]byte(s)))
+		// white-box: the stacks the call left on the reused evaluator (accepted, rejected at any position, failed at
+		// evaluation time) against the model's evaluator state
+		if a.dump && haveDump {
+			emit("d " + op[:1])
+		}
 	}
 }
 
@@ -158,6 +167,15 @@ func (a *structArea) Run(line string) string {
 		return "bad-op"
 	}
 	switch f[0] {
+	case "d":
+		k := 0
+		if f[1] == "f" {
+			k = 1
+		}
+		if a.reused[k] == nil {
+			a.reused[k] = newSymbolic(k == 1)
+		}
+		return dumpStacks(a.reused[k])
 	case "s", "f":
 		k := 0
 		if f[0] == "f" {
@@ -399,6 +417,7 @@ func (g *guarded) Run(line string) string {
 func main() {
 	hx.Main(map[string]hx.Area{
 		"struct": &guarded{name: "struct", mk: func() hx.Area { return &structArea{} }},
+		"state":  &guarded{name: "state", mk: func() hx.Area { return &structArea{dump: true} }},
 		"wf":     &guarded{name: "wf", mk: func() hx.Area { return &wfArea{} }},
 		"val":    &guarded{name: "val", mk: func() hx.Area { return &valArea{} }},
 		"fxval":  &guarded{name: "fxval", mk: func() hx.Area { return fxArea{} }},
